@@ -111,7 +111,7 @@ def link_away(w, path, how):
         os.link(path, other)
     else:
         os.rename(path, other)
-        os.symlink(other, path)
+        os.symlink(os.path.relpath(other, os.path.dirname(path)), path)      # relative: the snapshots of two runs under different roots stay comparable
 
 
 def prepare(root, opname):
